@@ -931,7 +931,7 @@ class OmniParser(PVLParser):
                 last_token = Token(
                     last_v, grammar=self.grammar, decoder=self.decoder
                 )
-                if last_token.is_parameter_name():
+                if isinstance(last_v, str) and last_token.is_parameter_name():
                     # Fix the previous entry
                     module.pop()
                     module.append(last_k, self._empty_value(t.pos))
@@ -950,7 +950,16 @@ class OmniParser(PVLParser):
                         )
                         return module, False  # return through parse_module()
                 else:
+                    # The previous value cannot be a parameter name, so
+                    # this equals sign is just a stray token.  Return it
+                    # and signal parse_module() that it should ignore us
+                    # (answering "keep parsing" without having consumed
+                    # anything would loop forever).
                     tokens.send(t)
+                    raise ValueError(
+                        f'The value before this "=" ("{last_v}") is not '
+                        "a Parameter Name."
+                    )
             else:
                 # The next token isn't an equals sign or the module is
                 # empty, so we want return the token and signal
